@@ -656,7 +656,7 @@ def run_c19(rep, tier, seed):
                    'spawn_blocking / JoinHandle = scripted lookup (list of 2 / 1 / 0 addresses, lookup error, join error, Pending)',
                    'str::parse::<IpAddr> = Python ipaddress; format! = argument list', 'tokio_rustls::TlsConnector::connect = scripted handshake recording the server name', 'openssl ConnectConfiguration::into_ssl = records the host name; tokio_openssl::SslStream::poll_connect = scripted handshake',
                    'ServerName::try_from = valid / invalid chosen by the driver', 'ReusableBoxFuture = replaceable boxed future', 'VecDeque / Vec / Option / Poll::map_ok models'}
-    rep.assumptions += ['PARTIAL: Host for String/&str parsing, the default getaddrinfo lookup itself and everything inside the TLS library (certificate validity, issuers, data integrity) are NOT covered',
+    rep.assumptions += ['PARTIAL: the default getaddrinfo lookup itself, host strings beyond the Kani bounds (see bounds.host_strings) and everything inside the TLS library (certificate validity, issuers, data integrity) are NOT covered',
                         'engine S is validated on every run against the real actix-tls connector compiled natively with scripted dial / lookup / handshake back ends (the default-lookup arm is excluded from that comparison: natively it is the real getaddrinfo)']
     ctx = ConnCtx(); octx = ConnCtx('openssl')
     t0 = time.time()
